@@ -88,6 +88,53 @@ scalar JSON
 directive @tag(name: String!, w: Float) on FIELD | QUERY
 `
 
+// Schema 3: abstract types against abstract types (rule 5.5.2.3 on every ordered
+// pair of abstract parent type and abstract type condition): unions that share no
+// member (DogOrHuman / CatOrAlien), unions that share exactly one (DogOrCat with
+// either), a union and an interface with (DogOrHuman / Walker, Swimmer) and
+// without (DogOrHuman / Flyer, CatOrAlien / Swimmer) a common possible type, two
+// interfaces with (Walker / Swimmer: Dog) and without (Walker / Flyer, Swimmer /
+// Flyer) a common implementer. Kept tiny: it is explored with smaller bounds.
+const sdl3 = `
+schema { query: Q }
+type Q { dh: DogOrHuman ca: CatOrAlien dc: DogOrCat w: Walker sw: Swimmer fl: Flyer }
+interface Walker { legs: Int }
+interface Swimmer { fins: Int }
+interface Flyer { wings: Int }
+type Dog implements Walker & Swimmer { legs: Int fins: Int }
+type Human implements Walker { legs: Int }
+type Cat implements Walker { legs: Int }
+type Alien implements Flyer { wings: Int }
+type Fish implements Swimmer { fins: Int }
+union DogOrHuman = Dog | Human
+union CatOrAlien = Cat | Alien
+union DogOrCat = Dog | Cat
+`
+
+var schemaNames = []string{"S1", "S2", "S3"}
+
+func newLabs() map[string]*lab {
+	return map[string]*lab{"S1": newLab("S1", sdl1), "S2": newLab("S2", sdl2), "S3": newLab("S3", sdl3)}
+}
+
+// schemaBounds: S3 only serves the abstract-against-abstract pairs, which all sit one level below the root.
+func schemaBounds(schema string, b opgen.Bounds, thorough bool) opgen.Bounds {
+	if schema != "S3" {
+		return b
+	}
+	max := 2
+	if thorough {
+		max = 3
+	}
+	if b.MaxNodes > max {
+		b.MaxNodes = max
+	}
+	if b.MaxDepth > max {
+		b.MaxDepth = max
+	}
+	return b
+}
+
 type lab struct {
 	name string
 	gen  *opgen.Schema
@@ -218,14 +265,15 @@ var refRules = map[string][]string{
 }
 
 const (
-	clauseReject = "an operation that breaks a validation rule of the specification is rejected"
-	clauseAccept = "an operation that satisfies the validation rules of the specification is accepted"
-	clausePanic  = "admission (normalize, validate) does not crash"
-	ruleValid    = "valid document"
-	siteExcluded = "any rule, inside a statically excluded selection"
-	siteMerged   = "any rule, in a field that normalization merges into an earlier occurrence"
-	siteSkipVar  = "any rule, in the definition of a variable that normalization resolves and deletes"
-	shrinkBudget = 400
+	clauseReject    = "an operation that breaks a validation rule of the specification is rejected"
+	clauseAccept    = "an operation that satisfies the validation rules of the specification is accepted"
+	clausePanic     = "admission (normalize, validate) does not crash"
+	ruleValid       = "valid document"
+	siteExcluded    = "any rule, inside a statically excluded selection"
+	siteMerged      = "any rule, in a field that normalization merges into an earlier occurrence"
+	siteUnionSpread = "any valid document, named fragment on a union spread inside another union"
+	siteSkipVar     = "any rule, in the definition of a variable that normalization resolves and deletes"
+	shrinkBudget    = 400
 )
 
 // caseInput is everything needed to re-run one case.
@@ -460,8 +508,13 @@ func (c *checker) evaluate(l *lab, base *opgen.Doc, m *opgen.Mutation) (falseRej
 		}
 		if site == rule && opgen.HasSkipOnlyVariable(sdoc) {
 			// one root cause whatever the rule: the variable is resolved and its definition deleted before validation
-			site, fullClass = siteSkipVar, "invalid content in the definition of a variable that has a default value and is used only as the argument of @skip / @include"
+			// (the rule family stays in the class: most of this mechanism is fixed in the tree, a regression of a fixed part must not hide behind the rest)
+			site, fullClass = siteSkipVar, "invalid content in the definition of a variable that has a default value and is used only as the argument of @skip / @include | "+rule
 		}
+	}
+	if clause == clauseAccept && opgen.HasUnionSpreadInOtherUnion(l.gen, sdoc) && strings.Contains(eng2.msg, "forms fragment cycle") {
+		// one root cause whatever the mutation: the spread is never inlined and every surviving spread is reported as a cycle
+		site, fullClass = siteUnionSpread, "valid document with a named fragment on a union spread inside a selection set on another union that shares a member"
 	}
 	if clause == clausePanic {
 		site, fullClass = "panic at "+eng.site, class
@@ -515,7 +568,7 @@ func TestCheck(t *testing.T) {
 	log.SetOutput(io.Discard) // the code under test logs "RemoveDirectiveFromNode not implemented ..." on some inputs
 	run := vk.Start("C04", "exploration")
 	defer run.Finish()
-	labs := map[string]*lab{"S1": newLab("S1", sdl1), "S2": newLab("S2", sdl2)}
+	labs := newLabs()
 	c := &checker{run: run, labs: labs}
 	if os.Getenv("C04_INPROCESS") == "" {
 		c.w = &engineWorker{}
@@ -592,15 +645,16 @@ func TestCheck(t *testing.T) {
 		run.Bound(tb.kind+"_max_decorations", tb.decos)
 		run.Bound(tb.kind+"_two_decorations_up_to_nodes", tb.deco2Max)
 	}
-	run.Bound("schemas", []string{"S1", "S2"})
+	run.Bound("schemas", schemaNames)
+	run.Bound("S3_query_max_nodes_and_depth", schemaBounds("S3", opgen.Bounds{MaxNodes: 99, MaxDepth: 99}, run.Thorough()).MaxNodes)
 	run.Bound("shrink_budget_steps", shrinkBudget)
 
 	var unit int64
-	for _, sn := range []string{"S1", "S2"} {
+	for _, sn := range schemaNames {
 		l := labs[sn]
 		g := opgen.NewGen(l.gen)
 		for _, tb := range tiers {
-			bases := g.Bases(tb.kind, tb.bounds)
+			bases := g.Bases(tb.kind, schemaBounds(sn, tb.bounds, run.Thorough()))
 			run.Count("bases/"+sn+"/"+tb.kind, int64(len(bases))*boolTo(run.Shard() == 0))
 			for _, base := range bases {
 				nodes := countNodes(base)
